@@ -8,6 +8,7 @@ quantify over every graph (well-formed or not, cyclic or not), every operation
 parameterisation `Ops`, both build profiles, every state and every reference depth.
 -/
 import CamVerif.Proofs.C18Access
+import CamVerif.Proofs.C18Err
 namespace CamVerif.C18
 open CamVerif CamVerif.GenApi CamVerif.GenApiSem
 
@@ -490,5 +491,95 @@ example : exec Ex.cx 3 (.isWritable 3) Ex.st1 = (.ok (.bool false), Ex.st1) ∧
 example : exec Ex.cx 4 (.isWritable 5) Ex.st2 = (.ok (.bool false), Ex.st2) ∧
     exec Ex.cx 4 (.isReadable 5) Ex.st2 = (.ok (.bool true), Ex.st2) := by
   constructor <;> rfl
+
+/-! ## The error side -/
+
+/-- **access_error_explained**: an access query introduces no error of its own except
+`InvalidNode`.  If `is_readable` / `is_writable` of a node answers an error `e`, then `e` is
+`InvalidNode` (a referenced node of the wrong kind — or the node's own kind offers no such
+query), or the model-only `outOfFuel`, or there is a node `c` and a reference depth `d ≤ fuel`
+such that, AT THAT STATE, the evaluation of `c` as controlling node (`bool_from_id`: what
+`pIsImplemented` / `pIsAvailable` / `pIsLocked` go through) or as `pIndex` selector fails with
+exactly `e` (`Explained`; `controller_failure` / `selector_failure` say what such a failure
+is).  This is the rule of the implementation-side oracle `access-error-unexplained`, as a
+theorem about the model — for every graph, state, profile and depth. -/
+theorem access_error_explained (cx : Ctx F E) (fuel : Nat) (n : NodeId) (st : St F) (e : Err) :
+    ((exec cx (fuel + 1) (.isReadable n) st).1 = .err e → Explained cx fuel st.s e) ∧
+    ((exec cx (fuel + 1) (.isWritable n) st).1 = .err e → Explained cx fuel st.s e) := by
+  constructor <;> intro h <;> simp only [exec, top] at h
+  · refine isReadableF_ok fuel n st.s e ?_
+    unfold runR at h; unfold R.val
+    cases hm : isReadableF cx (execRec cx fuel) n st.s with
+    | mk r l => rw [hm] at h; cases r <;> simp at h ⊢; exact h
+  · refine isWritableF_ok fuel n st.s e ?_
+    unfold runR at h; unfold R.val
+    cases hm : isWritableF cx (execRec cx fuel) n st.s with
+    | mk r l => rw [hm] at h; cases r <;> simp at h ⊢; exact h
+
+/- NOT PROVED (intended strengthening, kept as a statement only): the failing node `c` of
+`access_error_explained` is a controlling node or selector OF A NODE THE QUERY CONSULTS, i.e.
+
+  def access_error_explained_reachable_statement : Prop :=
+    ∀ (cx : Ctx F E) (fuel : Nat) (n : NodeId) (st : St F) (e : Err),
+      (exec cx (fuel + 1) (.isReadable n) st).1 = .err e →
+        e = .invalidNode ∨ e = .outOfFuel ∨
+        ∃ m c d, Reach cx n m ∧ d ≤ fuel ∧
+          ((IsController cx m c ∧ R.val (boolFromId cx (execRec cx d) c) st.s = .err e) ∨
+           (IsSelector cx m c ∧ R.val (pIndexIndex cx (execRec cx d) c) st.s = .err e))
+
+  (`Reach` = reflexive-transitive closure of "is value source / target / selector / formula
+  variable / converter pValue of"; `IsController cx m c` = `c` is `pIsImplemented` / `pIsAvailable` /
+  `pIsLocked` of `m`; `IsSelector cx m c` = `c` is the `pIndex` selector of `m`'s value.)
+What is missing: the lemmas of Proofs/C18Err.lean carry no information about WHICH node's base
+/ value kind they are applied to; threading a witness predicate (monotone along `Reach`)
+through them is mechanical but was not done in the time box.  The implementation-side oracle
+`access-error-unexplained` does check reachability (it only looks at what the query may consult). -/
+
+/-- what it means that the evaluation of `c` as controlling node fails with `e`: `c` is a
+boolean node whose value evaluation fails with `e`, or an integer node whose value
+evaluation fails with `e`, or neither kind and `e` is `InvalidNode` -/
+theorem controller_failure (cx : Ctx F E) (r : Rec F) (c : NodeId) (s : S F) (e : Err) :
+    R.val (boolFromId cx r c) s = .err e ↔
+      (isBoolKind cx c = true ∧ R.val (r.boolValue c) s = .err e) ∨
+      (isBoolKind cx c = false ∧ isIntKind cx c = true ∧ R.val (r.intValue c) s = .err e) ∨
+      (isBoolKind cx c = false ∧ isIntKind cx c = false ∧ e = .invalidNode) := by
+  unfold boolFromId
+  by_cases hb : isBoolKind cx c = true
+  · simp [hb]
+  · by_cases hi : isIntKind cx c = true
+    · simp only [hb, hi, if_true, Bool.false_eq_true, if_false, R.val_bind]
+      cases hv : R.val (r.intValue c) s <;> simp [Res.bind, hb]
+    · simp [hb, hi, eq_comm]
+
+/-- … and as `pIndex` selector: an integer node whose value evaluation fails with `e`, or
+not an integer node and `e` is `InvalidNode` -/
+theorem selector_failure (cx : Ctx F E) (r : Rec F) (sel : NodeId) (s : S F) (e : Err) :
+    R.val (pIndexIndex cx r sel) s = .err e ↔
+      (isIntKind cx sel = true ∧ R.val (r.intValue sel) s = .err e) ∨
+      (isIntKind cx sel = false ∧ e = .invalidNode) := by
+  unfold pIndexIndex
+  by_cases hi : isIntKind cx sel = true
+  · simp [hi]
+  · simp [hi, eq_comm]
+
+namespace ExErr
+/-- 0 port · 1 IntReg at address 100, length 1 (outside the 2-byte device image: reading it
+fails with `Device`) · 2 Integer over a value-store slot whose `pIsAvailable` is register 1 -/
+def graph : Graph Int Unit
+  | 0 => some (.port {} false)
+  | 1 => some (.intReg ⟨{}, [.address (.imm 100)], .imm 1, .rw, 0⟩ .unsigned .le)
+  | 2 => some (.integer { pIsAvailable := some 1 } (.value 0) (.imm 1) (.imm 2) (.imm 1))
+  | _ => none
+def cx : Ctx Int Unit := ⟨Ex.ops, Profile.dev, graph⟩
+def st : St Int := ⟨[.int 5, .int 0, .int 9], ⟨[7, 8], 0, 0⟩, []⟩
+end ExErr
+
+/-- the hypothesis of `access_error_explained` is satisfiable and its conclusion has a genuine
+witness: `is_readable` of node 2 fails with `Device`, which is neither `InvalidNode` nor
+`outOfFuel` — it is the error with which the controlling node 1 fails to evaluate -/
+example : (exec ExErr.cx 3 (.isReadable 2) ExErr.st).1 = .err .device ∧
+    (exec ExErr.cx 3 (.isWritable 2) ExErr.st).1 = .err .device ∧
+    R.val (boolFromId ExErr.cx (execRec ExErr.cx 2) 1) ExErr.st.s = .err .device := by
+  refine ⟨?_, ?_, ?_⟩ <;> rfl
 
 end CamVerif.C18
